@@ -72,13 +72,7 @@ namespace XKoJen
         */
         virtual ~threaded_dispatcher()
         {
-            m_shutting_down = true;
-            m_queue.wake_up();
-            for (auto& thread : m_threads){
-                if (thread.joinable()){
-                    thread.join();
-                }
-            }
+            shutdown();
         }
         /** Dispatch an item and transfer ownership to the dispatcher.
         *
@@ -102,6 +96,21 @@ namespace XKoJen
         *	@param item the item to be dispatched.
         */
         virtual void handle_dispatch(ptr_type item) = 0;
+        /** Stop and join the worker threads (idempotent).
+        *
+        *   A derived class must call this first thing in its own destructor: otherwise a worker may still be inside
+        *   (or about to call) the virtual handle_dispatch() while the derived part of the object is being destroyed.
+        */
+        void shutdown()
+        {
+            m_shutting_down = true;
+            m_queue.wake_up();
+            for (auto& thread : m_threads){
+                if (thread.joinable()){
+                    thread.join();
+                }
+            }
+        }
     private:
         void handle_dispatch_internal()
         {
